@@ -268,6 +268,7 @@ impl Ctx {
             Tier::Quick => 240.0,
             Tier::Thorough => 3000.0,
         });
+        watch_start(prop, tier);
         Ctx {
             prop,
             tier,
@@ -458,6 +459,79 @@ pub fn replay_case<C: DeserializeOwned + Serialize>(path: &str, prop: &str, eval
     }
 }
 
+// ------------------------------------------------------------------------------------
+// watchdog: an evaluation that does not return is a violation of the totality clauses (and would otherwise
+// make the check hang). Workers publish what they are working on; a monitor thread reports anything that
+// has been running for longer than the limit and ends the process with exit status 1.
+
+pub struct Watch {
+    slots: Vec<(std::sync::atomic::AtomicU64, std::sync::atomic::AtomicU64, std::sync::atomic::AtomicU64)>,
+    phase: std::sync::Mutex<String>,
+    t0: Instant,
+}
+static WATCH: std::sync::OnceLock<Watch> = std::sync::OnceLock::new();
+
+pub fn watch_start(prop: &'static str, tier: Tier) {
+    let w = Watch { slots: (0..256).map(|_| Default::default()).collect(), phase: std::sync::Mutex::new(String::new()), t0: Instant::now() };
+    if WATCH.set(w).is_err() {
+        return;
+    }
+    let limit_ms: u64 = std::env::var("VERIF_HANG_S").ok().and_then(|s| s.parse::<u64>().ok()).unwrap_or(90) * 1000;
+    std::thread::spawn(move || loop {
+        std::thread::sleep(std::time::Duration::from_millis(1000));
+        let w = WATCH.get().unwrap();
+        let now = w.t0.elapsed().as_millis() as u64;
+        for (i, (start, a, b)) in w.slots.iter().enumerate() {
+            let st = start.load(Ordering::Relaxed);
+            if st != 0 && now.saturating_sub(st) > limit_ms {
+                let phase = w.phase.lock().map(|p| p.clone()).unwrap_or_default();
+                let (a, b) = (a.load(Ordering::Relaxed), b.load(Ordering::Relaxed));
+                let verif = verif_dir();
+                let _ = std::fs::create_dir_all(format!("{}/replays", verif));
+                let path = format!("{}/replays/{}-{}-hang.json", verif, prop, tier.name());
+                let body = json!({"property": prop, "hang": true, "signature": format!("hang|{}", phase), "phase": phase, "work_item": [a, b], "worker": i,
+                    "detail": format!("an evaluation in phase '{}' (work item {}..{}) has not returned for more than {} s", phase, a, b, limit_ms / 1000)});
+                let _ = std::fs::write(&path, serde_json::to_string_pretty(&body).unwrap());
+                let ev = json!({"property_id": prop, "tier": tier.name(), "seed": 0, "level": "other",
+                    "coverage": {"explanation": format!("run aborted: an evaluation in phase '{}' did not return within {} s (reported as a violation: non-termination)", phase, limit_ms / 1000), "exhaustive": false},
+                    "wall_s": w.t0.elapsed().as_secs_f64(), "violations": 1});
+                let _ = std::fs::create_dir_all(format!("{}/evidence", verif));
+                let _ = std::fs::write(format!("{}/evidence/{}.json", verif, prop), serde_json::to_string_pretty(&ev).unwrap());
+                println!("VIOLATION property={} replay={}", prop, path);
+                println!("  signature: hang|{}", phase);
+                println!("  detail: {}", body["detail"].as_str().unwrap_or(""));
+                std::process::exit(1);
+            }
+        }
+    });
+}
+
+pub fn watch_phase(name: &str) {
+    if let Some(w) = WATCH.get() {
+        if let Ok(mut p) = w.phase.lock() {
+            *p = name.to_string();
+        }
+    }
+}
+
+pub fn watch_begin(a: u64, b: u64) {
+    if let (Some(w), Some(i)) = (WATCH.get(), rayon::current_thread_index()) {
+        if let Some(slot) = w.slots.get(i) {
+            slot.1.store(a, Ordering::Relaxed);
+            slot.2.store(b, Ordering::Relaxed);
+            slot.0.store((w.t0.elapsed().as_millis() as u64).max(1), Ordering::Relaxed);
+        }
+    }
+}
+
+pub fn watch_end() {
+    if let (Some(w), Some(i)) = (WATCH.get(), rayon::current_thread_index()) {
+        if let Some(slot) = w.slots.get(i) {
+            slot.0.store(0, Ordering::Relaxed);
+        }
+    }
+}
+
 /// Parallel map-reduce over an index range with deterministic merge.
 pub fn par_range(ctx: &Ctx, total: u64, f: impl Fn(u64, &mut Stats) + Sync + Send) -> Stats {
     use rayon::prelude::*;
@@ -472,9 +546,11 @@ pub fn par_range(ctx: &Ctx, total: u64, f: impl Fn(u64, &mut Stats) + Sync + Sen
             }
             let lo = c * chunk;
             let hi = (lo + chunk).min(total);
+            watch_begin(lo, hi);
             for i in lo..hi {
                 f(i, &mut st);
             }
+            watch_end();
             st
         })
         .reduce(Stats::default, Stats::merge)
